@@ -501,7 +501,9 @@ def _payload_rules(view, bs, s, root_view):
     elif ek == "BadSequenceLen":
         act = canon(view, fields.get("actual"))
         if not (act[0] == "field" and act[1] == ("param", 1) and act[2] == "Sequence"):
-            out.append(finding("C04.PAYLOAD", view, "`actual` of an arity error is not the offending sequence", s.bb, fmt(act)))
+            al = [strip_refs(canon(view, a)) for a in view.alts(act)]     # taken out of the input by a helper + `?`
+            if not (al and all(a[0] == "field" and a[1] == ("param", 1) and a[2] == "Sequence" for a in al)):
+                out.append(finding("C04.PAYLOAD", view, "`actual` of an arity error is not the offending sequence", s.bb, fmt(act)))
     elif ek == "UnknownKey":
         key = canon(view, fields.get("key"))
         it = item_of(strip_refs(key))
